@@ -110,7 +110,7 @@ def run(tier, rep):
                 rep.violation('accept:%s:%s:no-dispatch' % (cat, p), "published %s name '%s' matches no dispatch entry" % (cat, p))
     # (2)+(3) own scheme, same deviates
     nph = 2 if tier == 'quick' else 8
-    r = subprocess.run([exe, 'scheme', str(nph)], stdout=subprocess.PIPE, stderr=subprocess.PIPE, text=True, timeout=3000)
+    r = subprocess.run([exe, 'scheme', str(nph)] + (['deep'] if tier != 'quick' else []), stdout=subprocess.PIPE, stderr=subprocess.PIPE, text=True, timeout=3000)
     if r.returncode != 0:
         raise SystemExit('HARNESS-ERROR: c05 scheme exited %d' % r.returncode)
     execs = distinct = 0
@@ -138,8 +138,8 @@ def run(tier, rep):
                 'string literals of the dispatch in genbbsub.cc; every name of the union is initialised and shot; the three sets must agree per category; the '
                 'README mode table, dbd_modes.lis and dbd_modes() must agree; for each of the 69 published background names the event obtained through '
                 'decay0_generator equals (bit for bit, same deviates consumed) the event obtained by calling the nuclide\'s own scheme function plus exactly '
-                'the documented daughter, for the default stream and every single forced deviate position (<=80) over a 15-value grid, %d streams; '
-                'distinct = distinct (species list, deviates consumed) shapes' % nph,
+                'the documented daughter, for the default stream and every single forced deviate position (<=80) over a 15-value grid, every pair of the first five positions%s, %d streams; '
+                'distinct = distinct (species list, deviates consumed) shapes' % (' (thorough: every pair of the first eight and every triple of the first four positions)' if tier != 'quick' else '', nph),
     })
     rep.assumptions += ['name -> scheme-function table (checks/c05_schemes.inc) written from README appendix 1; daughters: Bi212+Po212 and Bi214+Po214 only after a beta branch, '
                         'Ca48+Sc48 and Zr96+Nb96 always, shifted by the daughter decay time', 'double-beta names: initialise and generate, catalogue equality (their schemes are bound by C02)']
